@@ -251,6 +251,12 @@ def exFa : Field := { name := [97], json := [97], number := 1, kind := .int32, c
 def exFb : Field := { name := [98], json := [98], number := 2, kind := .string, card := .single, presence := false, oneof := none }
 def exRoot : MsgDesc := { name := [77], fields := [exFa, exFb] }
 def exSchema : Schema := { enums := [], msgs := [exRoot] }
+/-- the same message with `optional int32 a = 1` (presence, synthetic oneof numbered 1000) -/
+def exFaOpt : Field := { name := [97], json := [97], number := 1, kind := .int32, card := .single, presence := true, oneof := some 1000 }
+def exRootOpt : MsgDesc := { name := [77], fields := [exFaOpt, exFb] }
+def exSchemaOpt : Schema := { enums := [], msgs := [exRootOpt] }
+/-- body {"a": 1, "b": "x"} decoded -/
+def exBodyAB : Dec := .ok [([[97]], .single (.int 1)), ([[98]], .single (.bytes [120]))]
 
 theorem bodyStage_err {sch root bd dec e} (h : bodyStage sch root bd dec = .error e) :
     e = .invalidArgument ∨ (e = .internal ∧ BadBinding sch root bd) ∨ (e = .eof ∧ dec = .eof) ∨ e = .fault := by
